@@ -262,7 +262,7 @@ class Game:
     __slots__ = ("seed", "style", "moves", "cfen", "fens", "stats", "want")
 
 
-def make_games(ctx, harness, driver, n_games, n_bound_prefix, style_pool=None, short=False):
+def make_games(ctx, harness, driver, n_games, n_bound_prefix, style_pool=None, short=False, directed=None):
     r = ctx.rng
     gl, styles = [], []
     for _ in range(n_games):
@@ -276,6 +276,10 @@ def make_games(ctx, harness, driver, n_games, n_bound_prefix, style_pool=None, s
             raise RuntimeError(f"game generator failed on `{l}`: {o}")
         mv, cfen = o[3:].split(" | ")
         g = Game(); g.seed = l; g.style = st; g.moves = mv.split(); g.cfen = cfen.strip()
+        games.append(g)
+        scan.append("pg replay - " + " ".join(g.moves))
+    for mv in directed or []:
+        g = Game(); g.seed = "directed: " + " ".join(mv); g.style = 128; g.moves = list(mv); g.cfen = None
         games.append(g)
         scan.append("pg replay - " + " ".join(g.moves))
     # first pass: the specification replays every game and tells where e.p. captures and castling moves are played
@@ -313,10 +317,25 @@ def make_games(ctx, harness, driver, n_games, n_bound_prefix, style_pool=None, s
         for k in ("promo", "castle", "epcap", "eprights", "captures"): tot[k] += int(g.stats[k])
         tot["pairs_before_ep_capture"] = tot.get("pairs_before_ep_capture", 0) + sum(1 for k in g.fens if g.stats["epcapat"] != "-" and str(k) in g.stats["epcapat"].split(","))
         tot["pairs_before_castling"] = tot.get("pairs_before_castling", 0) + sum(1 for k in g.fens if g.stats["castleat"] != "-" and str(k) in g.stats["castleat"].split(","))
-        if fens[-1] != g.cfen:
+        if g.cfen is not None and fens[-1] != g.cfen:
             ctx.violation(f"final position of a generated game differs between Position::makeMove/toFEN and the Lean specification: {g.cfen} vs {fens[-1]}",
                           {"kind": "position-vs-spec", "input": [g.seed, line], "impl": g.cfen, "model": fens[-1]}, no_input=True)
     return [g for g in games if g.fens], tot
+
+
+def two_capturer_games(r):
+    """short games in which a double push lands between TWO enemy pawns and either of them captures en passant
+    (both colours, every inner file, both captures), followed by a few quiet moves"""
+    out = []
+    F = "abcdefgh"
+    for x in range(1, 7):
+        a, b, c = F[x - 1], F[x + 1], F[x]
+        for cap in (a, b):
+            tail = [["h6g8"], ["h6g8", "g1h3"], ["h6g8", "g1h3", "g8h6"], []][r.randrange(4)]
+            out.append([f"{a}2{a}4", "g8h6", f"{a}4{a}5", "h6g8", f"{b}2{b}4", "g8h6", f"{b}4{b}5", f"{c}7{c}5", f"{cap}5{c}6"] + tail)
+            tail = [["g1h3"], ["g1h3", "g8h6"], []][r.randrange(3)]
+            out.append(["g1h3", f"{a}7{a}5", "h3g1", f"{a}5{a}4", "g1h3", f"{b}7{b}5", "h3g1", f"{b}5{b}4", f"{c}2{c}4", f"{cap}4{c}3"] + tail)
+    return out
 
 
 def game_input(g, k):
@@ -506,7 +525,8 @@ def run(ctx):
                        "generator styles (uniform / promotion-seeking / castling+en-passant-seeking / both / ending at an en-passant right); positions: final + one prefix per game through the filter, "
                        "several prefixes per game against the final through the ProofGame API; distinct = distinct positions / pairs / tuples")
     ctx.assumptions += ["the Lean specification Chess.legalB/apply/fixupEP is the rules of chess (shared trusted text, tied to MoveGen by C01)",
-                        "geometric pruning rules (pawn cones, blocked/deadlocked pieces, trapped bishops, assignment bounds, proof-kernel and extended-kernel search) have NO theorem: monitored only",
+                        "computeDeadlockedPieces is proved sound relative to the blocked set it is handed (hypothesis of Props.C16.deadlocked_pieces_sound_partial) and compared with the code on random blocked masks, which need not be masks computeBlocked would produce",
+                        "the other geometric pruning rules (pawn cones / blocked pawns, trapped bishops, shortest paths, assignment bounds, proof-kernel and extended-kernel search) have NO theorem: monitored only",
                         "the harness reaches private members of ProofGame via #define private public; the ply combination is exercised through the TEXEL_VERIF hook verifNeededMovesHook"]
     source_tie(ctx)
 
@@ -514,7 +534,7 @@ def run(ctx):
     games, tot = make_games(ctx, harness, driver, n_games, 6)
     ctx.log(f"{len(games)} games generated and re-played by the Lean specification")
     # short pawn-structure games for the API monitor only (cheap: ~1.5 ms per pair): every prefix against its own continuation
-    xgames, xtot = make_games(ctx, harness, driver, 1400 if quick else 12000, 0, style_pool=[16, 32, 24, 40, 8, 17, 33, 128, 128], short=True)
+    xgames, xtot = make_games(ctx, harness, driver, 1400 if quick else 12000, 0, style_pool=[16, 32, 24, 40, 8, 17, 33, 128, 128], short=True, directed=two_capturer_games(ctx.rng))
     ctx.log(f"{len(xgames)} short pawn-structure games for the bound monitor")
     # short games that END with an en-passant capture: the last-move analysis then has two forced last moves (capture + double push),
     # and the proof game the tool prints must still be a legal game (these finals go through -f and, first in line, through -f -o)
